@@ -44,7 +44,10 @@ STM = [('tal', 'content', 'x'), ('tal', 'replace', 'x'), ('tal', 'condition', 'c
        ('i18n', 'translate', ''), ('i18n', 'domain', 'd'), ('meta', 'interpolation', 'true'),
        ('tal', 'on-error', 'string:e'), ('tal', 'switch', 'x'), ('i18n', 'attributes', 'title'),
        ('tal', 'comment', 'blah'), ('metal', 'define-macro', 'M'), ('metal', 'define-slot', 'S'),
-       ('tal', 'content', 'structure sx'), ('i18n', 'context', 'cx')]
+       ('tal', 'content', 'structure sx'), ('i18n', 'context', 'cx'),
+       # a conditional omit-tag that is false; statement values written with character entities
+       ('tal', 'omit-tag', 'not c'), ('tal', 'condition', 'c &lt; 3'), ('tal', 'content', "'fish &amp; chips'"),
+       ('tal', 'replace', "structure '&lt;b&gt;y&lt;/b&gt;'"), ('tal', 'define', "q 'a&quot;b'")]
 FOREIGN = [('class', 'k'), ('data-foo', '2'), ('data-x-y', '7'), ('f:a', '3'), ('title', 'T'), ('xml:lang', 'en'),
            ('aria-label', 'l'), ('DATA-UP', '1'), ('b', '8')]
 
@@ -57,6 +60,11 @@ class El:
 
 def gen(rng, depth, counter, allow_undeclared):
     stmts = rng.sample(STM, rng.choice([0, 1, 1, 2, 2, 3]))
+    uniq = []
+    for st in stmts:                      # one statement of a kind per element
+        if (st[0], st[1]) not in [(u[0], u[1]) for u in uniq]:
+            uniq.append(st)
+    stmts = uniq
     names = [s[1] for s in stmts]
     # keep the program valid
     def drop(n):
